@@ -246,7 +246,41 @@ def summarize_event(ev):
     return json.dumps(keep)[:300]
 
 
-def engine_check(pid, fams, tier_, maxruns, level_note="", props=None, extra_cov=None, level="model_checking", h2=None, design=None, impl=False, stream=False):
+def clean_model(wd, sd, h1files, quick):
+    """C18, design level: spec/Clean.tla (src/clean.cc transcribed) model-checked against the reference sets of CleanRef.tla
+    over graphs x subsets of existing files x log contents x scopes; then the same operator on every recorded Clean event
+    of the real Cleaner (conformance).  A design counterexample is a candidate (broken check), disagreement is information."""
+    gp = export_family("cleanmc", 1 if quick else 3, 1, sd)
+    graphs = [l for l in open(gp) if l.strip()]
+    graphs = graphs[:24] if quick else graphs
+    gfile = os.path.join(wd, "cleangraphs.ndjson")
+    open(gfile, "w").write("".join(graphs))
+    cfg = os.path.join(wd, "mc_clean.cfg")
+    open(cfg, "w").write("SPECIFICATION Spec\nINVARIANT Safe\nINVARIANT Complete\nINVARIANT Ends\nCHECK_DEADLOCK FALSE\n")
+    r = run_tlc("Clean.tla", cfg, env={"GRAPHS": gfile}, workers=NCPU, extra=["-noGenerateSpecTE"], timeout=240 if quick else 3000, xmx="8g")
+    finished = "Model checking completed" in r["out"]
+    if "is violated" in r["out"] or ("Error:" in r["out"] and not finished and r["rc"] != 124):
+        raise Broken("design-level model Clean.tla: %s\n%s" % (r["error"], r["out"][-3000:]))
+    def go(pair):
+        sp, tp = pair
+        if '"e":"Clean"' not in open(tp).read():
+            return {"checked": 0, "agree": 0, "bad": []}
+        vp = tp + ".clean"
+        rr = run_tlc("CleanTrace.tla", "CleanTrace.cfg", env={"TRACE": tp, "VIOL": vp, "GRAPHS": gfile}, workers=1, timeout=3000, extra=["-noGenerateSpecTE"])
+        if rr["error"] or not os.path.exists(vp):
+            return {"checked": 0, "agree": 0, "bad": [], "error": (rr["error"] or "no result") + ": " + rr["out"][-800:]}
+        d = json.loads(open(vp).read().split("\n")[0])
+        return {"checked": d["stats"]["checked"], "agree": d["stats"]["agree"], "bad": d["bad"][:2]}
+    conf = parallel(go, h1files)
+    errs = [c["error"] for c in conf if c.get("error")]
+    if errs:
+        raise Broken("Clean.tla conformance failed to run: %s" % errs[0][:1500])
+    return {"states": r["states"], "distinct": r["distinct"], "finished": finished, "graphs": len(graphs), "invariants": ["Safe", "Complete", "Ends"],
+            "conformance": {"clean_events_replayed": sum(c["checked"] for c in conf), "agreeing": sum(c["agree"] for c in conf),
+                            "first_disagreements": [b for c in conf for b in c["bad"]][:2]}}
+
+
+def engine_check(pid, fams, tier_, maxruns, level_note="", props=None, extra_cov=None, level="model_checking", h2=None, design=None, impl=False, stream=False, cleanmodel=False):
     """Runs the pipeline and reports for property pid.  Returns exit code."""
     t0 = time.time()
     sd = seed()
@@ -280,6 +314,7 @@ def engine_check(pid, fams, tier_, maxruns, level_note="", props=None, extra_cov
         sres = stream_validate(files, wd) if stream else None
         dres = design_mc(wd, sd, **design) if design else None
         ires = impl_conformance(h1files, wd) if impl else None
+        cres = clean_model(wd, sd, h1files, tier_ == "quick") if cleanmodel else None
         if ires and (ires["errors"] or ires["dynamic"]["errors"]):
             # the conformance replay itself did not run to the end: a broken check, not a disagreement
             raise Broken("Impl conformance (ImplTrace / ImplDynTrace) failed to run: %s" % str((ires["errors"] + ires["dynamic"]["errors"])[0])[:1500])
@@ -327,8 +362,8 @@ def engine_check(pid, fams, tier_, maxruns, level_note="", props=None, extra_cov
                         evs.append({k: v for k, v in j.items() if k not in ("tree", "logs", "g", "read", "pools")})
                 samples.append({"scenario": json.loads(open(sp).readline()), "trace_events": evs[:40]})
         cov = {
-            "states": states + (dres["distinct"] if dres else 0), "transitions": states + (dres["states"] if dres else 0),
-            "design_model": dres, "impl_conformance": ires, "output_stream": dict(sstats) if sres else None,
+            "states": states + (dres["distinct"] if dres else 0) + (cres["distinct"] if cres else 0), "transitions": states + (dres["states"] if dres else 0) + (cres["states"] if cres else 0),
+            "design_model": dres if not cres else cres, "impl_conformance": ires if not cres else cres["conformance"], "output_stream": dict(sstats) if sres else None,
             "traces_validated_against_impl": stats["execs"],
             "samples": samples,
             "evaluations": stats["execs"],
